@@ -54,6 +54,11 @@ def handleImage (toks : List String) : Option String :=
     match Kind.ofName? target, w.toNat?, h.toNat?, parseHexBytes? srch with
     | some k, some w, some h, some srcb =>
       let src := parsePxs srcb
+      if k == .nrgba then
+        -- an `*image.NRGBA` destination is written through `SetRGBA64`, not through the colour model
+        let bytes := (src.toList.take (w * h)).flatMap fun c => let n := toNRGBA8Draw c; [lo n.r, lo n.g, lo n.b, lo n.a]
+        some (digestArr (bytes ++ List.replicate (w * h * 4 - bytes.length) 0).toArray)
+      else
       let d : Dst := { kind := k, pix := Array.replicate (w * h * k.bpp) 0, start := 0, stride := w * k.bpp }
       some (digestArr (transform d id (pixelsOf w src)))
     | _, _, _, _ => some "bad-op"
